@@ -127,8 +127,8 @@ Fixpoint resolve (s : stack) (n : string) : stack * option symbol :=
               if mem n (t_disabled t) then (s, None)
               else match builtin_index n builtins_map with
                    | Some idx =>
-                       let sym := {| s_name := n; s_index := idx; s_scope := ScBuiltin; s_const := false |} in
-                       ([with_store t ((n, sym) :: t_store t)], Some sym)
+                       (* builtin symbols are not stored in the table *)
+                       (s, Some {| s_name := n; s_index := idx; s_scope := ScBuiltin; s_const := false |})
                    | None => (s, None)
                    end
           | _ =>
